@@ -210,7 +210,7 @@ def run(ctx):
     ctx.enable_disturb(pt, 0.03)     # other legitimate library calls interleaved between cases (vf.gen.disturb)
     cfg = gp.GenCfg(min_len=1, max_len=20, letters=LETTERS, weights=dict(gp.W_MASS), p_isotope=0.0, p_mult=0.2,
                     p_res=0.3, p_interval=0.2, p_unknown=0.2, p_labile=0.25, p_static=0.3, p_charge=0.4)
-    n = ctx.n(60000, 2000000)
+    n = ctx.n(150000, 2000000)
     for i in range(n):
         p, kw, charge, adducts, iso, loss, prec, mono = gen_case(ctx.rng, cfg)
         for m in p.all_mods():
